@@ -1027,8 +1027,19 @@ func (fc *FC) binop(v *ssa.BinOp) *RF {
 	case token.AND_NOT:
 		return s.MakeFn("andnot", l, r)
 	case token.EQL:
+		// x == x on a float is the NaN test written without the math package
+		if l.Equal(r) && isFloatType(v.X.Type()) {
+			if _, isC := l.IsConst(); !isC {
+				return s.Not(s.MakeFn("math.IsNaN", l))
+			}
+		}
 		return s.Cmp("==", l, r)
 	case token.NEQ:
+		if l.Equal(r) && isFloatType(v.X.Type()) {
+			if _, isC := l.IsConst(); !isC {
+				return s.MakeFn("math.IsNaN", l)
+			}
+		}
 		return s.Cmp("!=", l, r)
 	case token.LSS:
 		return s.Cmp("<", l, r)
@@ -2687,6 +2698,15 @@ func (fc *FC) copiedFrom(ms *ssa.MakeSlice) *RF {
 					after = true
 				}
 				if in == ref && !after {
+					return nil
+				}
+			}
+			continue
+		}
+		if ph, isPhi := ref.(*ssa.Phi); isPhi {
+			// a merge uses the value on the edges that carry it
+			for k, e := range ph.Edges {
+				if e == ssa.Value(ms) && !fc.Ctx.Dominates(cp.Block(), ph.Block().Preds[k]) {
 					return nil
 				}
 			}
